@@ -10,6 +10,8 @@ ENTRIES = ['rsbdd::parser::SymbolicBDD::tokenize', 'rsbdd::parser::ParsedFormula
 
 # std / core functions that panic by documented contract (exact resolved or declared paths, generic args stripped)
 PANIC_CALLS = {
+    # `{:width$}` / `{:.prec$}` with a run-time value: the formatter panics ("Formatting argument out of range") above u16::MAX
+    'core::fmt::rt::Argument::from_usize': 'format width (a run-time width or precision above 65535 panics)',
     # a requested size the caller chooses: `capacity overflow` panics (and allocation aborts) when it is not bounded by something that exists
     'std::vec::Vec::with_capacity': 'capacity (Vec::with_capacity)', 'std::string::String::with_capacity': 'capacity (String::with_capacity)',
     'std::vec::Vec::reserve': 'capacity (Vec::reserve)', 'std::vec::Vec::reserve_exact': 'capacity (Vec::reserve_exact)', 'std::vec::Vec::resize': 'capacity (Vec::resize)',
@@ -346,6 +348,37 @@ class Discharger:
 
     def _same_site(self, e, s):
         return e['loc'] == s.loc or e.get('fn_loc') == s.loc
+
+    # R15: a run-time format width that is a constant below 2^16, or capped by one (`min(w, K)`)
+    def R15(self, s):
+        if s.kind != 'call' or not s.what.startswith('format width'): return None
+        t = self.thir(s)
+        if t is None: return None
+        import facts as _facts
+        def small(e, depth=0):
+            while e['k'] in ('Use', 'Borrow', 'Deref', 'NeverToAny', 'Cast'): e = e.get('source') or e.get('arg')
+            if e['k'] == 'Literal' and e.get('lit') == 'Int':
+                try: return int(e['value']) <= 65535
+                except (TypeError, ValueError): return False
+            if e['k'] == 'Call' and ((_facts.callee_decl(e) or '') == 'std::cmp::Ord::min' or (callee_name(e) or '') == 'std::cmp::min') and len(e['args']) == 2:
+                return small(e['args'][0], depth + 1) or small(e['args'][1], depth + 1)
+            return False
+        # the width is handed to the formatter as `from_usize(&args.N)`, N-th element of the argument tuple of the same format block
+        for b in walk(t['body']):
+            if b['k'] != 'Block' or not b.get('stmts'): continue
+            tup = None
+            for st in b['stmts']:
+                i0 = st.get('init') if st['k'] == 'Let' else None
+                while i0 is not None and i0['k'] in ('Use', 'Borrow', 'Deref', 'NeverToAny'): i0 = i0.get('source') or i0.get('arg')
+                if i0 is not None and i0['k'] == 'Tuple' and tup is None: tup = i0['fields']
+            if tup is None: continue
+            for st in b['stmts']:
+                if st['k'] != 'Let' or st.get('init') is None: continue
+                for e in walk(st['init']):
+                    if e['k'] == 'Call' and callee_name(e) == 'core::fmt::rt::Argument::from_usize':
+                        fld = [x for x in walk(e['args'][0]) if x['k'] == 'Field']
+                        if not fld or fld[0]['field'] >= len(tup) or not small(tup[fld[0]['field']]): return None
+        return 'R15: every run-time format width in this function is a constant below 65536 or capped by one'
 
     # R14: a requested capacity that is a constant, or the length of a collection that already exists
     def R14(self, s):
